@@ -199,23 +199,23 @@ Qed.
 
 (* the copied object ends on to_copy unless it had been copied before *)
 Local Transparent pg_reserve.
-Lemma pgz_top_tocopy : forall src dst fid l, pd_all src <> [] ->
-  pg_omap_find (pgc_omap (pg_cres src dst fid)) fid = Some l ->
-  In fid (pgc_tocopy (pg_cres src dst fid)) \/ pg_omap_find (pd_omap dst) fid = Some l.
+Lemma pgz_top_tocopy_gen : forall f src dst fid l, pd_all src <> [] ->
+  pg_omap_find (pgc_omap (pg_reserve (S f) (PvRef fid) true (pg_c0 src dst))) fid = Some l ->
+  In fid (pgc_tocopy (pg_reserve (S f) (PvRef fid) true (pg_c0 src dst))) \/ pg_omap_find (pd_omap dst) fid = Some l.
 Proof.
-  intros src dst fid l Hall. unfold pg_cres. change 200%nat with (S 199). cbn [pg_reserve].
+  intros f src dst fid l Hall. cbn [pg_reserve].
   change (pgc_err (pg_c0 src dst)) with (@None pg_err). cbv iota.
   rewrite (pgx_type_is src Hall (pg_c0 src dst) (PvRef fid) pgk_Pages eq_refl). cbv iota beta.
   change (pgc_err (pg_c0 src dst)) with (@None pg_err). cbv iota.
   destruct (pg_is_dict_of_type (pd_store src) (PvRef fid) pgk_Pages); [intros H; right; exact H|].
   destruct (pg_is_selfref (pd_store (pgc_src (pg_c0 src dst))) (PvRef fid)); [intros H; right; exact H|].
   assert (Hgo : forall c2, pgc_tocopy c2 = [fid] ->
-            In fid (pgc_tocopy (match pgc_err (pg_reserve_kids (fun x c => pg_reserve 199 x false c) (PvRef fid) c2) with
-                                | Some _ => pg_reserve_kids (fun x c => pg_reserve 199 x false c) (PvRef fid) c2
-                                | None => pg_reserve_done (PvRef fid) (pg_reserve_kids (fun x c => pg_reserve 199 x false c) (PvRef fid) c2)
+            In fid (pgc_tocopy (match pgc_err (pg_reserve_kids (fun x c => pg_reserve f x false c) (PvRef fid) c2) with
+                                | Some _ => pg_reserve_kids (fun x c => pg_reserve f x false c) (PvRef fid) c2
+                                | None => pg_reserve_done (PvRef fid) (pg_reserve_kids (fun x c => pg_reserve f x false c) (PvRef fid) c2)
                                 end))).
   { intros c2 Ht.
-    destruct (pg_cR_kids (fun x c => pg_reserve 199 x false c) (PvRef fid) c2 (fun x c0 => pg_cR_reserve 199 x false c0))
+    destruct (pg_cR_kids (fun x c => pg_reserve f x false c) (PvRef fid) c2 (fun x c0 => pg_cR_reserve f x false c0))
       as (_ & _ & _ & more & T & _).
     destruct (pgc_err _); cbn [pg_reserve_done pgc_tocopy]; rewrite T, Ht; apply in_or_app; right; left; reflexivity. }
   destruct (pgx_head_spec src Hall fid true (pg_c0 src dst) eq_refl eq_refl) as [(l0 & El & _ & E)|[(l0 & El & E)|[(El & E)|(El & _ & E)]]].
@@ -225,6 +225,11 @@ Proof.
   - pose proof (pgz_head_top_new fid (pg_c0 src dst) El eq_refl) as Hn. rewrite E in Hn. discriminate.
 Qed.
 Local Opaque pg_reserve.
+
+Lemma pgz_top_tocopy : forall src dst fid l, pd_all src <> [] ->
+  pg_omap_find (pgc_omap (pg_cres src dst fid)) fid = Some l ->
+  In fid (pgc_tocopy (pg_cres src dst fid)) \/ pg_omap_find (pd_omap dst) fid = Some l.
+Proof. intros src dst fid l Hall. exact (pgz_top_tocopy_gen 199 src dst fid l Hall). Qed.
 
 Lemma pgz_copied_result : forall src dst fid l,
   pd_all src <> [] -> pg_omap_wf dst ->
@@ -269,7 +274,7 @@ Proof.
     + left. exists v. split; [reflexivity|split; [exact Hrep|right; exact Hnull]].
     + right; left. exists d, data, k. reflexivity.
     + destruct Hrep.
-  - destruct (Htop Efid) as [Hin|Hold]; [contradiction|].
+  - destruct (Htop eq_refl) as [Hin|Hold]; [contradiction|].
     right; right. split; [exact Hold|].
     assert (Hex : pg_lookup (pd_store dst) l <> None) by (eapply Wex; exact Hold).
     split; [|exact Hex]. rewrite <- (D l Hex). apply H2.
